@@ -1,6 +1,8 @@
 package main
 
 import (
+	"time"
+
 	"pipelined.dev/signal"
 	"verif.local/simrt"
 )
@@ -52,6 +54,16 @@ func drawInner(sim *simrt.Sim) {
 	// held back for many steps, which is what check-then-act and ABA windows need.
 	if sim.InnerG > 0 {
 		sim.StallMax = []int{0, 8, 32, 128}[sim.Sched.Draw(4)]
+	}
+}
+
+// drawClock draws the behaviour of the simulated clock (schedule stream). It
+// only matters for a library that reads the time; the pinned tree does not.
+func drawClock(sim *simrt.Sim) {
+	sim.ClockTick = []time.Duration{time.Microsecond, time.Millisecond, 50 * time.Millisecond, time.Second}[sim.Sched.Draw(4)]
+	if sim.Sched.Draw(2) == 1 {
+		sim.ClockJumpNum = 32
+		sim.ClockJumpMax = []time.Duration{time.Second, time.Minute, 24 * time.Hour}[sim.Sched.Draw(3)]
 	}
 }
 
